@@ -6,12 +6,19 @@ package mint
 
 import (
 	"context"
+	"crypto/sha256"
 	"encoding/hex"
+	"encoding/json"
+	"fmt"
 	"math"
 	"testing"
 	"time"
 
+	"github.com/btcsuite/btcd/btcec/v2"
+	"github.com/btcsuite/btcd/btcec/v2/schnorr"
 	"github.com/btcsuite/btcd/chaincfg"
+	"github.com/elnosh/gonuts/cashu/nuts/nut10"
+	"github.com/elnosh/gonuts/cashu/nuts/nut11"
 	"github.com/decred/dcrd/dcrec/secp256k1/v4"
 	"github.com/decred/dcrd/dcrec/secp256k1/v4/ecdsa"
 	"github.com/lightningnetwork/lnd/lnwire"
@@ -287,5 +294,95 @@ func TestVerifReplay_LateSettledNotification(t *testing.T) {
 	o2 := vOutputs(t, m, []uint64{8})
 	if _, err := m.MintTokens(nut04.PostMintBolt11Request{Quote: q.Id, Outputs: o2.bms}); err == nil {
 		t.Fatalf("CONFIRMED: quote issued twice for one payment (late settled notification reopened an ISSUED quote)")
+	}
+}
+
+// vLockedProofs mints proofs whose secrets are the given NUT-10 secrets.
+func vLockedProofs(t *testing.T, m *Mint, amounts []uint64, secrets []string) cashu.Proofs {
+	t.Helper()
+	var total uint64
+	for _, a := range amounts {
+		total += a
+	}
+	q, err := m.RequestMintQuote(nut04.PostMintQuoteBolt11Request{Amount: total, Unit: "sat"})
+	if err != nil {
+		t.Fatal(err)
+	}
+	var o vOut
+	for i, a := range amounts {
+		r, _ := secp256k1.GeneratePrivateKey()
+		B_, r, err := crypto.BlindMessage(secrets[i], r)
+		if err != nil {
+			t.Fatal(err)
+		}
+		o.bms = append(o.bms, cashu.NewBlindedMessage(m.activeKeyset.Id, a, B_))
+		o.secrets = append(o.secrets, secrets[i])
+		o.rs = append(o.rs, r)
+	}
+	sigs, err := m.MintTokens(nut04.PostMintBolt11Request{Quote: q.Id, Outputs: o.bms})
+	if err != nil {
+		t.Fatal(err)
+	}
+	return vUnblind(t, m, o, sigs)
+}
+
+func vP2PKSecret(t *testing.T, data string, tags [][]string) string {
+	s, err := nut10.NewSecretFromSpendingCondition(nut10.SpendingCondition{Kind: nut10.P2PK, Data: data, Tags: tags})
+	if err != nil {
+		t.Fatal(err)
+	}
+	return s
+}
+
+func vSignSecret(t *testing.T, key *btcec.PrivateKey, secret string, aux byte) string {
+	h := sha256.Sum256([]byte(secret))
+	var auxData [32]byte
+	auxData[0] = aux
+	sig, err := schnorr.Sign(key, h[:], schnorr.CustomNonce(auxData))
+	if err != nil {
+		t.Fatal(err)
+	}
+	return hex.EncodeToString(sig.Serialize())
+}
+
+// A SIG_ALL input placed after a plain input: the swap must still require
+// signed outputs.
+func TestVerifReplay_SigAllAfterPlainInput(t *testing.T) {
+	m := vNewMint(t, 0, nil)
+	key, _ := btcec.NewPrivateKey()
+	pub := hex.EncodeToString(key.PubKey().SerializeCompressed())
+	locked := vP2PKSecret(t, pub, [][]string{{"sigflag", "SIG_ALL"}})
+	plain := vMintProofs(t, m, []uint64{2})
+	lp := vLockedProofs(t, m, []uint64{4}, []string{locked})
+	w, _ := json.Marshal(nut11.P2PKWitness{Signatures: []string{vSignSecret(t, key, locked, 1)}})
+	lp[0].Witness = string(w)
+	inputs := append(cashu.Proofs{}, plain[0], lp[0])
+	o := vOutputs(t, m, []uint64{4, 2}) // outputs NOT signed
+	if _, err := m.Swap(inputs, o.bms); err == nil {
+		t.Fatalf("CONFIRMED: swap with a SIG_ALL input in second position accepted unsigned outputs")
+	}
+	// sanity: the same inputs with the locked proof first are refused
+	o2 := vOutputs(t, m, []uint64{4, 2})
+	if _, err := m.Swap(cashu.Proofs{lp[0], plain[0]}, o2.bms); err == nil {
+		t.Fatalf("CONFIRMED: swap with a SIG_ALL input accepted unsigned outputs")
+	}
+}
+
+// n_sigs larger than the number of authorised keys can never be met: two
+// signatures by the same key must not count twice.
+func TestVerifReplay_SameKeyCountedTwice(t *testing.T) {
+	m := vNewMint(t, 0, nil)
+	k1, _ := btcec.NewPrivateKey()
+	k2, _ := btcec.NewPrivateKey()
+	pub1 := hex.EncodeToString(k1.PubKey().SerializeCompressed())
+	pub2 := hex.EncodeToString(k2.PubKey().SerializeCompressed())
+	locked := vP2PKSecret(t, pub1, [][]string{{"n_sigs", "3"}, {"pubkeys", pub2}})
+	lp := vLockedProofs(t, m, []uint64{4}, []string{locked})
+	sigs := []string{vSignSecret(t, k1, locked, 1), vSignSecret(t, k2, locked, 2), vSignSecret(t, k2, locked, 3)}
+	w, _ := json.Marshal(nut11.P2PKWitness{Signatures: sigs})
+	lp[0].Witness = string(w)
+	o := vOutputs(t, m, []uint64{4})
+	if _, err := m.Swap(lp, o.bms); err == nil {
+		t.Fatalf("CONFIRMED: 3-of-{k1,k2} lock spent with signatures of only two distinct keys (%s)", fmt.Sprint(len(sigs)))
 	}
 }
